@@ -243,7 +243,10 @@ class WWWAuthenticate:
         return self[name]
 
     def __setattr__(self, name: str, value: str | None) -> None:
-        if name in {"_type", "_parameters", "_token", "_on_update"}:
+        if name in {"_type", "_parameters", "_token", "_on_update"} or isinstance(
+            getattr(type(self), name, None), property
+        ):
+            # Internal state, and the type, token, and parameters properties.
             super().__setattr__(name, value)
         else:
             self[name] = value
